@@ -366,6 +366,22 @@ class Inputs:
                 from scipy import sparse
 
                 self.full = {o: sparse.csr_array(v) for o, v in self.full.items()}
+        # interleaved subspace labels (e.g. [0, 1, 0, 2, 1]) instead of contiguous blocks; order inside a block is kept
+        if w.get("interleave") and w["fmt"] in ("scalar_idx", "dict", "list", "symkeys", "sympy_expr"):
+            labels = np.array(self.idx)
+            rg.shuffle(labels)
+            old_of_new = np.empty(N, dtype=int)
+            for b in range(nb):
+                old_of_new[np.flatnonzero(labels == b)] = np.arange(self.offs[b], self.offs[b + 1])
+            if self.sym:
+                sel = [int(k) for k in old_of_new]
+                self.full = {o: M.extract(sel, sel) for o, M in self.full.items()}
+            else:
+                self.full = {o: (M[old_of_new][:, old_of_new] if w["domain"] != "sparse" else M[old_of_new][:, old_of_new].tocsr())
+                             for o, M in self.full.items()}
+                if w["domain"] == "dense":
+                    self.full = {o: np.ascontiguousarray(M) for o, M in self.full.items()}
+            self.idx = labels
         # basis rotation for the eigenvector formats
         self.vecs = None
         if w["fmt"] == "implicit":
@@ -1400,7 +1416,7 @@ class GraphProp:
              "p_zero_block": r.choice([0.0, 0.0, 0.3, 0.6]), "deg": r.random() < 0.25,
              "complex_e": r.random() < 0.4, "derived": r.random() < profile.get("p_derived", 0.5),
              "internals": r.random() < profile.get("p_internals", 0.5), "h_data": r.random() < 0.3,
-             "symbols": r.random() < 0.2, "dimnames": r.random() < 0.2, "sectors": bool(nb >= 3 and domain in ("dense", "sparse") and r.random() < 0.25),
+             "symbols": r.random() < 0.2, "dimnames": r.random() < 0.2, "interleave": r.random() < 0.4, "sectors": bool(nb >= 3 and domain in ("dense", "sparse") and r.random() < 0.25),
              "cap": profile.get("max_total", {1: 4, 2: 3, 3: 2})[npert] if domain != "sym" else 3}
         if fmt == "scalar_vecs":
             w["real"] = False
